@@ -13,7 +13,8 @@ TRUSTED_BASE = [
     "Lean 4.33.0 kernel (thorough tier re-checks the property's .olean files with leanchecker)",
     "axioms allowed in property theorems: propext, Classical.choice, Quot.sound (audited with #print axioms on every run); "
     "no sorry/admit/axiom/native_decide/bv_decide (grep on every run)",
-    "fact extractor harness/cmd/nibiru-extract (go/ast) and the correspondence harness harness/cmd/nibiru-harness incl. its "
+    "fact extractor harness/cmd/nibiru-extract (go/ast; its structural fingerprints — SHA-256 of the alpha-renamed declaration — are a "
+    "change detector on the modelled functions, not a statement about behaviour) and the correspondence harness harness/cmd/nibiru-harness incl. its "
     "canonicalisation of observations",
     "modelled, not verified: go-ethereum interpreter/ABI, Cosmos-SDK fork (bank, staking, authz, gov, baseapp), wasmd/wasmvm, IAVL, "
     "CometBFT, NibiruChain/collections (ordered maps), Solidity artifacts, hash functions",
@@ -97,7 +98,9 @@ def extract_facts():
         tmp = os.path.join(CACHE, "facts_tmp")
         shutil.rmtree(tmp, ignore_errors=True)
         os.makedirs(tmp)
-        rc, out, dt = sh([os.path.join(BIN, "nibiru-extract"), "-repo", REPO, "-out", tmp], env=go_env(), timeout=900)
+        env = go_env()
+        env["VERIF_SURFACE"] = os.path.join(VERIF, "lib", "surface.json")
+        rc, out, dt = sh([os.path.join(BIN, "nibiru-extract"), "-repo", REPO, "-out", tmp], env=env, timeout=900)
         if rc != 0:
             return False, out, {}
         digests = {}
@@ -135,6 +138,24 @@ def lake_build(targets, timeout=3000):
         rc, out, dt = sh(["lake", "build"] + targets, cwd=LEAN, timeout=timeout)
         log("lake build %s: rc=%d %.1fs" % (" ".join(targets), rc, dt))
         return rc == 0, out
+
+
+def surface_changes(pid):
+    """Which entries of Generated.surface_<pid> differ from the committed expectation (NibiruProofs/Surf<pid>.lean)."""
+    def rows(path, name):
+        try:
+            src = open(path).read()
+        except OSError:
+            return {}
+        m = re.search(r"def %s : List \(String × String\) := \[\n(.*?)\]\n" % name, src, re.S)
+        return dict(re.findall(r'\("([^"]*)", "([^"]*)"\)', m.group(1))) if m else {}
+    exp = rows(os.path.join(LEAN, "NibiruProofs", "Surf%s.lean" % pid), "expected_%s" % pid)
+    got = rows(os.path.join(LEAN, "Generated", "Facts.lean"), "surface_%s" % pid)
+    out = []
+    for k in sorted(set(exp) | set(got)):
+        if exp.get(k) != got.get(k):
+            out.append(k + (" (new)" if k not in exp else " (gone)" if got.get(k) in (None, "missing") else ""))
+    return out or ["?"]
 
 
 def lean_errors(out):
@@ -341,7 +362,9 @@ def run_check(pid, tier, seed, replay):
             failures.append({"kind": "facts", "name": "tools/mapranges failed", "detail": mout[-2000:]})
 
     # 3. proofs + audit
-    modules = P["modules"]
+    modules = list(P["modules"])
+    if os.path.exists(os.path.join(LEAN, "NibiruProofs", "Surf%s.lean" % pid)):
+        modules.append("NibiruProofs.Surf%s" % pid)      # T1-S: fingerprints of the modelled functions
     bok, bout = lake_build(["Generated"] + modules + ["driver"])
     proof_errors = []
     if not bok:
@@ -353,7 +376,10 @@ def run_check(pid, tier, seed, replay):
         for e in proof_errors:
             kind = "facts" if (e["file"].startswith("Generated") or "Facts" in (e["file"] or "") or
                                (e.get("decl") or "").startswith("fact_")) else "proof"
-            failures.append({"kind": kind, "name": "%s (%s:%d)" % (e.get("decl"), e["file"], e["line"]), "detail": e["msg"]})
+            detail = e["msg"]
+            if (e.get("decl") or "").endswith("_surface_fingerprints"):
+                detail = "modelled functions whose structure changed: " + ", ".join(surface_changes(pid)) + " | " + detail
+            failures.append({"kind": kind, "name": "%s (%s:%d)" % (e.get("decl"), e["file"], e["line"]), "detail": detail})
     thm_ok, thm_bad = [], []
     if bok:
         thm_ok, thm_bad, _ = audit(pid, modules, P.get("prefix", pid + "_"))
